@@ -226,5 +226,7 @@ m("c13-uhf-energy-ab-factor", "C13", MOLF, "            factor = [1/2, 1, 1/2]",
 m("c13-vqe-uhf-ab-block-diagonal-case", "C13", VQE, "                    elif (iele_r, jele_r, kele_r, lele_r) == (0, 1, 1, 0):\n                        rdm2_np_ba[iele, lele, jele, kele] += opt_energy2\n",
   "                    elif (iele_r, jele_r, kele_r, lele_r) == (0, 1, 1, 0):\n                        rdm2_np_ba[iele, lele, jele, kele] += 0.5 * opt_energy2\n")
 
+m("c07-revert-uccgd-ordered-rebuild", "C07", AG + "uccgd.py", "        if list(qu_op_dict) != list(self.qu_op_dict):", "        if set(qu_op_dict) != set(self.qu_op_dict):")
+
 EXPECTED_MISS = {"c07-puccd-mapping-reversed": "build_circuit delegates to update_var_params: single code path, invisible to incremental-vs-fresh"}
 MUTANTS = M
